@@ -63,6 +63,7 @@ class Opts:
         self.backward_ann = False  # main thread carries '## backward ##' annotations (not nested in each other)
         self.force_second_thread = False
         self.first_op_children = False  # the first file entry may enclose other calls
+        self.python_frames = False  # with_stack=True: python_function events wrap operators (host events without graph nodes)
         self.fault_kinds = ["no_launch", "no_kernel", "no_corr"]  # which partner of a launch/activity pair may be missing
         self.backward_ann_ranks = None  # None: every rank may carry '## backward ##' annotations; else only these (generation index)
         self.annotation_names = None  # names of user annotations (default: vocab.USER_ANNOTATIONS); may repeat operator names
@@ -105,7 +106,7 @@ def leaf_launch(draw, o: Opts, streams: List[int]) -> Dict[str, Any]:
             "stream": pick(draw, streams), "delay": pick(draw, ([0, 0] if o.allow_zero_delay else [1]) + [1, 2, 3, 6] + ([-1, -2] if o.early_kernels else [])),
             "kgap": pick(draw, [0, 0, 1, 2, 4]), "kdur": pick(draw, ([0] if o.allow_zero_kdur else []) + list(o.kdurs)),
             "kname": kname, "fault": fault, "bytes": pick(draw, [0, 4, 1024, 4096]),
-            "bw": pick(draw, [0.0, 0.5, 1.25, 12.0, 100.0]),
+            "bw": pick(draw, [0.0, 0.5, 1.25, 12.0, 100.0, 12, 3]),  # whole numbers are also written without a decimal point
             "align": bool(o.align_ends and len(streams) > 1 and pick(draw, [False, False, False, True])),
             "host_stream": pick(draw, [None] * 7 + ["0x0", "0x55d0c8a3b2f0"])}
 
@@ -139,6 +140,8 @@ def op_node(draw, o: Opts, streams: List[int], depth: int, names: Optional[List[
     pool = names or o.op_names or vocab.CPU_OPS
     if o.annotations and depth >= 0 and pick(draw, [True] * o.annotation_weight + [False] * (6 - o.annotation_weight)):
         cat, pool = "user_annotation", (o.annotation_names or [a for a in vocab.USER_ANNOTATIONS if a != "## backward ##"])
+    if o.python_frames and cat == "cpu_op" and depth >= 0 and pick(draw, [True, False, False, False, False]):
+        cat, pool = "python_function", vocab.PYTHON_FRAMES
     kids = draw(body(o, streams, depth + 1)) if depth < o.max_depth else []
     if cat == "user_annotation" and kids and pick(draw, [False, False, False, True]):
         # an empty annotation nested first inside the annotation (events without graph nodes, nested)
